@@ -184,9 +184,34 @@ func (r *Report) Finish(replayFilter string) int {
 	replayDir := filepath.Join(evDir, "replay")
 	os.MkdirAll(replayDir, 0o755)
 	// remove stale replay files of this property
-	if old, _ := filepath.Glob(filepath.Join(replayDir, r.Property+"-*.json")); old != nil {
+	if old, _ := filepath.Glob(filepath.Join(replayDir, r.Property+"-*.json")); old != nil && replayFilter == "" {
 		for _, f := range old {
 			os.Remove(f)
+		}
+	}
+	// replay: re-decide only the obligation named in the replay file
+	if replayFilter != "" {
+		var rf struct{ Rule, Construct string }
+		if b, err := os.ReadFile(replayFilter); err == nil && json.Unmarshal(b, &rf) == nil && rf.Rule != "" {
+			var keep []Obligation
+			for _, o := range r.Obligs {
+				if o.Rule == rf.Rule && o.Construct == rf.Construct {
+					keep = append(keep, o)
+				}
+			}
+			if len(keep) == 0 {
+				fmt.Printf("replay: obligation %s [%s] no longer exists on the current tree\n", rf.Rule, rf.Construct)
+			}
+			for _, o := range keep {
+				fmt.Printf("replay: %s %s:%d %s [%s] status=%s: %s", o.Rule, o.File, o.Line, o.Func, o.Construct, o.Status, o.Detail)
+				if o.Path != "" {
+					fmt.Printf("; path: %s", o.Path)
+				}
+				fmt.Println()
+			}
+			r.Obligs = keep
+		} else {
+			fmt.Println("replay: cannot read", replayFilter)
 		}
 	}
 	nviol, nknown, nok := 0, 0, 0
@@ -230,6 +255,10 @@ func (r *Report) Finish(replayFilter string) int {
 		}
 		fmt.Println()
 		rp := filepath.Join(replayDir, fmt.Sprintf("%s-%d.json", r.Property, vi))
+		if replayFilter != "" {
+			fmt.Printf("VIOLATION property=%s replay=%s\n", r.Property, replayFilter)
+			continue
+		}
 		rb, _ := json.MarshalIndent(map[string]any{
 			"property": r.Property, "rule": o.Rule, "construct": o.Construct, "file": o.File, "line": o.Line,
 			"function": o.Func, "obligation": o.Detail, "path": o.Path,
